@@ -497,7 +497,7 @@ pub fn part2<C: Ciphersuite>(
     }
 
     for package in round1_packages.values() {
-        if package.commitment.min_signers() != secret_package.min_signers {
+        if package.commitment.0.len() != secret_package.min_signers as usize {
             return Err(Error::IncorrectNumberOfCommitments);
         }
     }
